@@ -10,6 +10,7 @@ import (
 	"net"
 	"net/http"
 	"net/http/httptest"
+	"runtime"
 	"strings"
 	"time"
 
@@ -69,6 +70,9 @@ type c14SrvCase struct {
 	Offers []string `json:"offers"`
 	Mode   string   `json:"server_mode"`
 	Split  bool     `json:"split_header_lines"` // one Sec-WebSocket-Extensions line per offer
+	// ColdPools: the garbage collector runs twice before every message of the exchange, which
+	// empties the library's sync.Pools: every message starts from the pools' cold paths
+	ColdPools bool `json:"cold_pools,omitempty"`
 }
 
 func c14SrvCases(maxLen int) []c14SrvCase {
@@ -89,9 +93,9 @@ func c14SrvCases(maxLen int) []c14SrvCase {
 	var out []c14SrvCase
 	for _, l := range lists {
 		for _, m := range hsModes {
-			out = append(out, c14SrvCase{l, m, false})
+			out = append(out, c14SrvCase{Offers: l, Mode: m})
 			if len(l) >= 2 {
-				out = append(out, c14SrvCase{l, m, true})
+				out = append(out, c14SrvCase{Offers: l, Mode: m, Split: true})
 			}
 		}
 	}
@@ -208,6 +212,16 @@ type exchFail struct {
 	detail string
 }
 
+// c14Cold is set by the case being run (see ColdPools).
+var c14Cold bool
+
+func c14MaybeCold() {
+	if c14Cold {
+		runtime.GC()
+		runtime.GC()
+	}
+}
+
 // exchange runs 3 messages library->peer and 3 messages peer->library.
 // agreed is the parameter set of the response header (nil: no compression).
 // role is the library's role ("client"/"server"); locus is appended to the
@@ -232,6 +246,7 @@ func exchange(c *fw.Ctx, ctx context.Context, conn *websocket.Conn, mc *memConn,
 	// chunks above it (whether a message is compressed is decided by its first chunk)
 	l2p := append(append([][]byte(nil), c14Msgs...), c14Msgs[1])
 	for i, msg := range l2p {
+		c14MaybeCold()
 		var werr error
 		if p := fw.Recover(func() {
 			if i == 1 || i == 3 {
@@ -304,6 +319,7 @@ func exchange(c *fw.Ctx, ctx context.Context, conn *websocket.Conn, mc *memConn,
 		conn.SetReadLimit(-1)
 		big := c14Big()
 		for i, msg := range [][]byte{big, append([]byte("again: "), big[80000:80300]...)} {
+			c14MaybeCold()
 			p, err := snd.Compress(msg)
 			if err != nil {
 				c.EngineError("reference sender: " + err.Error())
@@ -352,6 +368,7 @@ func exchange(c *fw.Ctx, ctx context.Context, conn *websocket.Conn, mc *memConn,
 	// not compress (RSV1 clear): it is not part of either side's compression history
 	p2l := [][]byte{c14Msgs[0], []byte("ok"), c14Msgs[1], c14Msgs[2]}
 	for i, msg := range p2l {
+		c14MaybeCold()
 		f := pmd.Frame{Fin: true, Opcode: pmd.OpText, Payload: msg, Masked: !libIsClient, MaskKey: [4]byte{0x12, 0x34 + byte(i), 0x56, 0x78}}
 		if agreed != nil && i != 1 {
 			// the first message ends with a final deflate block (RFC 7692 7.2.3.4); the
@@ -465,6 +482,11 @@ func attributeBadAcceptance(cs c14SrvCase, sts []hsclient.OfferStatus, respVals 
 }
 
 func c14SrvOne(c *fw.Ctx, cs c14SrvCase) {
+	c14Cold = cs.ColdPools
+	defer func() { c14Cold = false }()
+	// (the worker collects garbage only between cases and where a case says so: cmd/seqw)
+	runtime.GC() // every case starts from empty pools, whatever ran before it in the process
+	runtime.GC()
 	c.Eval()
 	c.AddTraces(1)
 	o := c14Accept(cs.Offers, cs.Mode, cs.Split)
@@ -641,6 +663,11 @@ func c14SrvRun(c *fw.Ctx, shard, nshards int) {
 			break
 		}
 		c14SrvOne(c, cases[i])
+		if len(cases[i].Offers) <= 1 {
+			cold := cases[i]
+			cold.ColdPools = true
+			c14SrvOne(c, cold)
+		}
 		if c.WantSample() && i%389 == shard {
 			c.Sample(cases[i])
 		}
@@ -656,11 +683,17 @@ func c14SrvRun(c *fw.Ctx, shard, nshards int) {
 // ---------------------------------------------------------------- client side
 
 type c14CliCase struct {
-	RespExt string `json:"resp_extensions"`
-	Mode    string `json:"client_mode"`
+	RespExt   string `json:"resp_extensions"`
+	Mode      string `json:"client_mode"`
+	ColdPools bool   `json:"cold_pools,omitempty"`
 }
 
 func c14CliOne(c *fw.Ctx, cs c14CliCase) {
+	c14Cold = cs.ColdPools
+	defer func() { c14Cold = false }()
+	// (the worker collects garbage only between cases and where a case says so: cmd/seqw)
+	runtime.GC() // every case starts from empty pools, whatever ran before it in the process
+	runtime.GC()
 	c.Eval()
 	c.AddTraces(1)
 	c.AddTransitions(1)
@@ -740,8 +773,11 @@ func c14CliRun(c *fw.Ctx) {
 	n := 0
 	for _, ext := range respExtVariants {
 		for _, m := range hsModes {
-			cs := c14CliCase{ext, m}
+			cs := c14CliCase{RespExt: ext, Mode: m}
 			c14CliOne(c, cs)
+			cs.ColdPools = true
+			c14CliOne(c, cs)
+			cs.ColdPools = false
 			if n%7 == 3 {
 				c.Sample(cs)
 			}
